@@ -125,6 +125,16 @@ func (w *Walker) Walk(
 			cancel: cancelCh,
 		}
 		verifhook.Emit("walk.register", "n", node.GetLabel().String())
+	}
+	verifhook.Emit("walk.registered")
+
+	// Only start the routines once every selected node is registered: a node that completes
+	// looks up its dependants in nodeInfoMap, so the map must be complete (and no longer written) by then.
+	for _, node := range w.graph.nodes {
+		if !node.GetIsSelected() {
+			continue
+		}
+		verifhook.Gate("walk.spawn", "n", node.GetLabel().String())
 
 		w.wait.Add(1)
 		// start all routines
@@ -136,7 +146,6 @@ func (w *Walker) Walk(
 		}
 	}
 
-	verifhook.Emit("walk.registered")
 	// Wait for all goroutines to complete
 	done := make(chan struct{})
 	go func() {
